@@ -23,7 +23,12 @@ ASSUMPTIONS = [
 
 
 def _enc(b):
-    return specs.lib_encode(b)
+    """Re-encoding of a block a lookup returned; a block that cannot even be encoded is certainly not the
+    stored one."""
+    try:
+        return specs.lib_encode(b)
+    except Exception as e:  # noqa: BLE001
+        return ("unencodable", type(e).__name__)
 
 
 def _expect_block(fn, t, payload, what, op, cfg, where):
@@ -31,14 +36,14 @@ def _expect_block(fn, t, payload, what, op, cfg, where):
         b = fn()
     except Exception as x:  # noqa: BLE001
         raise core.Violation("lookup-raises", kcommon.sig(PROP, "lookup-raises", op, cfg, what), None,
-                             f"{where}: {what} raised {type(x).__name__}: {x} although {R.NAMES[t]} is present")
+                             f"{where}: {what} raised {type(x).__name__}: {x} although {str(R.NAMES.get(t, t))} is present")
     bt = getattr(getattr(b, "type", None), "value", None)
     if bt != t:
         raise core.Violation("lookup-wrong-type", kcommon.sig(PROP, "lookup-wrong-type", op, cfg, what), None,
-                             f"{where}: {what} returned {type(b).__name__} (type {bt}), expected {R.NAMES[t]}")
+                             f"{where}: {what} returned {type(b).__name__} (type {bt}), expected {str(R.NAMES.get(t, t))}")
     if _enc(b) != payload:
         raise core.Violation("lookup-wrong-content", kcommon.sig(PROP, "lookup-wrong-content", op, cfg, what), None,
-                             f"{where}: {what} returned a {R.NAMES[t]} block with other content than the live one")
+                             f"{where}: {what} returned a {str(R.NAMES.get(t, t))} block with other content than the live one")
 
 
 def _expect_raise(fn, what, op, cfg, where, exc_types=Exception):
@@ -54,6 +59,17 @@ def _expect_raise(fn, what, op, cfg, where, exc_types=Exception):
 
 
 def observe(sess, hist, op, exc, valid, reason, pre, acc):
+    from .. import env
+
+    try:
+        with env.time_limit(5):
+            return _observe(sess, hist, op, exc, valid, reason, pre, acc)
+    except env.LibraryCallTimeout as e:
+        raise core.Violation("lookup-does-not-return", kcommon.sig(PROP, "lookup-does-not-return", op, sess.cfg), None,
+                             f"after {[kdriver.op_str(o) for o in hist]}: {e} (blocks in this exploration are a few hundred bytes)")
+
+
+def _observe(sess, hist, op, exc, valid, reason, pre, acc):
     cfg = sess.cfg
     model = sess.model
     tdf = sess.tdf
@@ -77,13 +93,13 @@ def observe(sess, hist, op, exc, valid, reason, pre, acc):
                              f"{where}: assignment raised {type(exc).__name__}: {exc}")
     # ---- at most one per kind
     cnt = collections.Counter(e["type"] for e in p["entries"] if e["type"] != 0)
-    dup = [R.NAMES[t] for t, c in cnt.items() if c > 1]
+    dup = [str(R.NAMES.get(t, t)) for t, c in cnt.items() if c > 1]
     if dup:
         raise core.Violation("two-blocks-of-one-kind", kcommon.sig(PROP, "two-blocks-of-one-kind", op, cfg), None,
-                             f"{where}: file holds {dict((R.NAMES[t], c) for t, c in cnt.items())}")
+                             f"{where}: file holds {dict((str(R.NAMES.get(t, t)), c) for t, c in cnt.items())}")
     if sorted(cnt) != sorted(model.live):
         raise core.Violation("live-set!=model", kcommon.sig(PROP, "live-set!=model", op, cfg), None,
-                             f"{where}: file {sorted(R.NAMES[t] for t in cnt)} model {sorted(R.NAMES[t] for t in model.live)}")
+                             f"{where}: file {sorted(str(R.NAMES.get(t, t)) for t in cnt)} model {sorted(str(R.NAMES.get(t, t)) for t in model.live)}")
     # ---- accessors: they depend on the state only, so in the BFS (where every transition starts from a
     # fresh object) each canonical state is swept once; the chain walks always sweep
     if _BFS_MEMO is not None:
@@ -112,11 +128,11 @@ def observe(sess, hist, op, exc, valid, reason, pre, acc):
             continue
         acc.n["accessor_evals"] += 2
         if t in model.live:
-            _expect_block(lambda: tdf.get_block(BT(t)), t, model.live[t].payload, f"get_block({R.NAMES[t]})", op, cfg, where)
-            _expect_block(lambda: tdf[BT(t)], t, model.live[t].payload, f"tdf[{R.NAMES[t]}]", op, cfg, where)
+            _expect_block(lambda: tdf.get_block(BT(t)), t, model.live[t].payload, f"get_block({str(R.NAMES.get(t, t))})", op, cfg, where)
+            _expect_block(lambda: tdf[BT(t)], t, model.live[t].payload, f"tdf[{str(R.NAMES.get(t, t))}]", op, cfg, where)
         else:
-            _expect_raise(lambda: tdf.get_block(BT(t)), f"get_block({R.NAMES[t]})", op, cfg, where)
-            _expect_raise(lambda: tdf[BT(t)], f"tdf[{R.NAMES[t]}]", op, cfg, where)
+            _expect_raise(lambda: tdf.get_block(BT(t)), f"get_block({str(R.NAMES.get(t, t))})", op, cfg, where)
+            _expect_raise(lambda: tdf[BT(t)], f"tdf[{str(R.NAMES.get(t, t))}]", op, cfg, where)
         g = kdriver.GETTERS.get(t)
         if g:
             acc.n["accessor_evals"] += 1
@@ -164,11 +180,11 @@ def observe(sess, hist, op, exc, valid, reason, pre, acc):
             raise core.Violation("blocks-raises", kcommon.sig(PROP, "blocks-raises", op, cfg, type(x).__name__), None,
                                  f"{where}: tdf.blocks raised {type(x).__name__}: {x}")
         liveb = [b for b in blocks if getattr(b.type, "value", None) != 0]
-        got = sorted((b.type.value, _enc(b)) for b in liveb)
+        got = sorted(((b.type.value, _enc(b)) for b in liveb), key=lambda x: (x[0], repr(x[1])[:40]))
         want = sorted((t, r.payload) for t, r in model.live.items())
         if got != want:
             raise core.Violation("blocks!=live-set", kcommon.sig(PROP, "blocks!=live-set", op, cfg), None,
-                                 f"{where}: blocks lists {[R.NAMES.get(t) for t, _ in got]}, live {[R.NAMES[t] for t, _ in want]}")
+                                 f"{where}: blocks lists {[R.NAMES.get(t) for t, _ in got]}, live {[str(R.NAMES.get(t, t)) for t, _ in want]}")
 
 
 _BFS_MEMO = None
@@ -185,7 +201,7 @@ def _shard(cfg_w):
 
 
 
-_chain = kcommon.make_chain_run(__name__, "observe", extra_ops=kcommon.unused_ops)
+_chain = kcommon.make_chain_run(__name__, "observe", extra_ops=kcommon.unused_ops, faults=True)
 
 
 def _holes(_):
